@@ -45,6 +45,17 @@ open Gen
 @[simp] theorem staleFwd_pq (s : St) : (staleFwd s).pq = s.pq := by
   rfl
 
+@[simp] theorem ensureStreams_pq (ids : List (BitVec 16)) (s : St) : ((ensureStreams s ids).1).pq = s.pq := by
+  induction ids generalizing s with
+  | nil => rfl
+  | cons id ids ih =>
+    simp only [ensureStreams]
+    split
+    · exact ih s
+    · split
+      · rw [ih]; simp
+      · simp
+
 @[simp] theorem fwdEntry_pq (s : St) (e : BitVec 16 × BitVec 16) : (fwdEntry s e).pq = s.pq := by
   unfold fwdEntry; dsimp only; repeat' split
   all_goals first | rfl | simp
@@ -258,13 +269,15 @@ theorem handleData_pq (s : St) (c : Reasm.Chunk) (imm : Bool) : (handleData s c 
         simp
 
 /-- what `handleForwardTSN` / `handleIForwardTSN` do to the receive queue -/
-def fwdTrace (s : St) (newCum : TSN) : List RecvQ.Op :=
+def fwdTrace (s : St) (newCum : TSN) (ids : List (BitVec 16)) : List RecvQ.Op :=
   if s.il then [] else if !s.useFwd then []
-  else if fwd_stale (chunkTSN_newCumulativeTSN := newCum) (a_peerLastTSN := s.pq.cum) then [] else [.fwd newCum]
+  else if fwd_stale (chunkTSN_newCumulativeTSN := newCum) (a_peerLastTSN := s.pq.cum) then []
+  else if !(ensureStreams s ids).2 then [] else [.fwd newCum]
 
-def ifwdTrace (s : St) (newCum : TSN) : List RecvQ.Op :=
+def ifwdTrace (s : St) (newCum : TSN) (ids : List (BitVec 16)) : List RecvQ.Op :=
   if !s.useIFwd then []
-  else if ifwd_stale (chunkTSN_newCumulativeTSN := newCum) (a_peerLastTSN := s.pq.cum) then [] else [.fwd newCum]
+  else if ifwd_stale (chunkTSN_newCumulativeTSN := newCum) (a_peerLastTSN := s.pq.cum) then []
+  else if !(ensureStreams s ids).2 then [] else [.fwd newCum]
 
 theorem qrun_fwd (q : RecvQ.Q) (c : TSN) (h : sna32LTE c q.cum = false) : qrun q [.fwd c] = popAllQ (RecvQ.advance q c) := by
   rw [qrun_single q ⟨0, 0, fun _ => False, fun _ => False⟩]
@@ -272,7 +285,7 @@ theorem qrun_fwd (q : RecvQ.Q) (c : TSN) (h : sna32LTE c q.cum = false) : qrun q
   exact popAllS_q _ _
 
 theorem handleFwd_pq (s : St) (c : TSN) (es : List (BitVec 16 × BitVec 16)) :
-    (handleFwd s c es).pq = qrun s.pq (fwdTrace s c) := by
+    (handleFwd s c es).pq = qrun s.pq (fwdTrace s c (es.map (·.1))) := by
   unfold handleFwd fwdTrace
   split
   · rfl
@@ -281,24 +294,34 @@ theorem handleFwd_pq (s : St) (c : TSN) (es : List (BitVec 16 × BitVec 16)) :
     · split
       · rfl
       · rename_i hst
-        rw [ackStep_pq', qrun_fwd _ _ (by simpa [fwd_stale] using hst)]
-        simp
+        have hep := ensureStreams_pq (es.map (·.1)) s
+        generalize ensureStreams s (es.map (·.1)) = e at hep ⊢
+        dsimp only
+        split
+        · exact hep
+        · rw [ackStep_pq', qrun_fwd _ _ (by simpa [fwd_stale] using hst)]
+          simp [hep]
 
 theorem handleIFwd_pq (s : St) (c : TSN) (es : List (BitVec 16 × Bool × BitVec 32)) :
-    (handleIFwd s c es).pq = qrun s.pq (ifwdTrace s c) := by
+    (handleIFwd s c es).pq = qrun s.pq (ifwdTrace s c (es.map (·.1))) := by
   unfold handleIFwd ifwdTrace
   split
   · rfl
   · split
     · rfl
     · rename_i hst
-      rw [ackStep_pq', qrun_fwd _ _ (by simpa [ifwd_stale] using hst)]
-      simp
+      have hep := ensureStreams_pq (es.map (·.1)) s
+      generalize ensureStreams s (es.map (·.1)) = e at hep ⊢
+      dsimp only
+      split
+      · exact hep
+      · rw [ackStep_pq', qrun_fwd _ _ (by simpa [ifwd_stale] using hst)]
+        simp [hep]
 
 def chunkTrace (s : St) : InChunk → List RecvQ.Op
   | .data c _ => if c.userData.isEmpty then [] else dataTrace s c
-  | .fwd c _ => fwdTrace s c
-  | .ifwd c _ => ifwdTrace s c
+  | .fwd c es => fwdTrace s c (es.map (·.1))
+  | .ifwd c es => ifwdTrace s c (es.map (·.1))
   | .hb _ => []
   | .reset _ => []
 
